@@ -115,6 +115,8 @@ type cnrEnv struct {
 	ownerIDs  [][]byte // 25-byte owner ids
 	ownerSH   [][]byte // script hashes (balance accounts)
 	alphaOwners []int  // indices of the owners that are Alphabet nodes' standard accounts
+	firstSized  int    // index of the first size-boundary blob in blobs
+	maxBlob     int    // largest blob length a put transaction can carry
 
 	nns, netmap, balance, neofsid, container util.Uint160
 	alphaAccts                                [][]byte // CreateStandardAccount of committee keys
@@ -266,6 +268,41 @@ func cnrBlob(v int, owner []byte, salt byte) []byte {
 	return b
 }
 
+// cnrBlobN is a container blob of exactly L bytes: header and owner as in
+// cnrBlob, then a constant filler (run-length friendly for the Coq literals)
+// and the salt.
+func cnrBlobN(v int, owner []byte, salt byte, L int) []byte {
+	b := make([]byte, L)
+	for i := range b {
+		b[i] = 0x42
+	}
+	for i := 0; i < 2+v+4 && i < L; i++ {
+		b[i] = byte(0x40 + (i*7+int(salt))%50)
+	}
+	b[0] = 0x0a
+	b[1] = byte(v)
+	copy(b[2+v+4:], owner)
+	b[L-1] = salt
+	return b
+}
+
+// cnrSizes: lengths that cross the encoding boundaries on the path of a
+// container blob: 252/253 (var-uint length prefix of std.Serialize: 1 -> 3
+// bytes), 255/256 (PUSHDATA1 -> PUSHDATA2 in the invocation script), 1 KiB,
+// 4 KiB, and the largest blob a transaction can carry (script limit 65535;
+// the storage value limit of 65535 for the serialized descriptor lies 32 bytes
+// above it).
+var cnrSizes = []int{252, 253, 254, 255, 256, 300, 1024, 4096}
+
+// cnrPad extends b to L bytes with a constant filler.
+func cnrPad(b []byte, L int) []byte {
+	out := append([]byte{}, b...)
+	for len(out) < L {
+		out = append(out, 0x43)
+	}
+	return out
+}
+
 func (c *cnrEnv) buildPools() {
 	// six blobs: version-field lengths 0, 2, 5 (the owner offset moves), two owners each
 	vs := []int{0, 2, 5, 0, 2, 5}
@@ -276,6 +313,17 @@ func (c *cnrEnv) buildPools() {
 	// containers owned by Alphabet nodes (payer = one of the payees)
 	for k, oi := range c.alphaOwners {
 		c.blobs = append(c.blobs, cnrBlob([]int{0, 2}[k%2], c.ownerIDs[oi], byte(7+k)))
+	}
+	// blobs whose length crosses the encoding boundaries
+	c.firstSized = len(c.blobs)
+	for k, L := range cnrSizes {
+		c.blobs = append(c.blobs, cnrBlobN([]int{0, 2, 5}[k%3], c.ownerIDs[k%cnrNOwners], byte(0x20+k), L))
+	}
+	{ // the largest blob that fits a transaction (put with a 64-byte signature and the 5-byte token)
+		tx := c.E.NewUnsignedTx(c.T, c.container, "put", make([]byte, 60000), cnrSigA, make([]byte, 33), cnrTok)
+		c.maxBlob = 65535 - (len(tx.Script) - 60000)
+		// the pool's big blob leaves room for the name arguments of putNamed
+		c.blobs = append(c.blobs, cnrBlobN(2, c.ownerIDs[1], 0x3f, c.maxBlob-100))
 	}
 	for _, b := range c.blobs {
 		h := sha256.Sum256(b)
@@ -797,10 +845,47 @@ func (c *cnrEnv) coqCase(q *cnrCoq, steps []string, wf bool) string {
 		q.pool.Ref(c.committee.ScriptHash().BytesBE()), q.pool.Ref(c.container.BytesBE()), q.it("nstate", c.readNNS(q)), BoolLit(wf), ListLit(steps))
 }
 
+// cnrBytesLit prints a byte string as a Coq term, long runs of one byte as
+// [repeat x n] (a 64 KiB blob stays a short literal).
+func cnrBytesLit(b []byte) string {
+	if len(b) < 64 {
+		return BytesLit(b)
+	}
+	var parts []string
+	lit := 0
+	flush := func(to int) {
+		if to > lit {
+			parts = append(parts, BytesLit(b[lit:to]))
+		}
+	}
+	for i := 0; i < len(b); {
+		j := i
+		for j < len(b) && b[j] == b[i] {
+			j++
+		}
+		if j-i >= 32 {
+			flush(i)
+			parts = append(parts, fmt.Sprintf("repeat %d%%N (N.to_nat %d)", b[i], j-i))
+			lit = j
+		}
+		i = j
+	}
+	flush(len(b))
+	return strings.Join(parts, " ++ ")
+}
+
+func cnrPoolDefs(p *Pool) string {
+	var sb strings.Builder
+	for i, s := range p.order {
+		fmt.Fprintf(&sb, "Definition %s%d : bytes := %s.\n", p.pfx, i, cnrBytesLit([]byte(s)))
+	}
+	return sb.String()
+}
+
 func writeCnrCases(path string, q *cnrCoq, cases []string) error {
 	var sb strings.Builder
 	sb.WriteString("From Verif Require Import Base.Prelude Model.Balance Model.Container Proofs.ContainerNNS.\nLocal Open Scope Z_scope.\n")
-	sb.WriteString(q.pool.Defs())
+	sb.WriteString(cnrPoolDefs(q.pool))
 	sb.WriteString(strings.Join(q.vdefs, "\n"))
 	sb.WriteString("\nDefinition cid_tab : list (bytes * bytes) := " + ListLit(q.cidRows) + ".\n")
 	sb.WriteString("Definition b58_tab : list (bytes * bytes) := " + ListLit(q.b58Rows) + ".\n")
@@ -1367,6 +1452,10 @@ func (g *cnrGen) pickBlob() []byte {
 		}
 		return l[r.Intn(len(l))]
 	}
+	if r.Intn(100) < 22 {
+		// a blob whose length crosses an encoding boundary (whatever its status)
+		return c.blobs[c.firstSized+r.Intn(len(c.blobs)-c.firstSized)]
+	}
 	switch x := r.Intn(100); {
 	case x < 42:
 		return pick(fresh)
@@ -1400,8 +1489,9 @@ func (g *cnrGen) pickBlob() []byte {
 func (g *cnrGen) pickName() (string, string) {
 	r := g.r
 	name := []string{"aaa", "bbb", "c-1"}[r.Intn(3)]
-	if r.Intn(12) == 0 {
-		name = []string{"a.b", "UP", "x", "-ab", strings.Repeat("q", 64), "aaa.bbb"}[r.Intn(6)]
+	if r.Intn(10) == 0 {
+		// malformed names; labels of 63 (the longest valid) and 64 bytes
+		name = []string{"a.b", "UP", "x", "-ab", strings.Repeat("q", 64), "aaa.bbb", strings.Repeat("w", 63), "l" + strings.Repeat("0", 61) + "9"}[r.Intn(8)]
 	}
 	var zone string
 	switch x := r.Intn(100); {
@@ -1425,17 +1515,42 @@ func (g *cnrGen) pub() []byte {
 }
 
 func (g *cnrGen) tok() []byte {
-	if g.r.Intn(3) == 0 {
+	switch x := g.r.Intn(12); {
+	case x < 4:
 		return nil
+	case x == 4:
+		return cnrPad(cnrTok, []int{252, 253, 256, 1000}[g.r.Intn(4)]) // long session tokens
 	}
 	return cnrTok
 }
 
 func (g *cnrGen) sig() []byte {
-	if g.r.Intn(2) == 0 {
+	switch x := g.r.Intn(12); {
+	case x < 5:
 		return cnrSigA
+	case x == 5:
+		return cnrPad(cnrSigB, []int{252, 253, 300}[g.r.Intn(3)]) // over-long signatures are stored as they come
+	case x == 6:
+		return []byte{}
 	}
 	return cnrSigB
+}
+
+// fit keeps the invocation script of an operation on the pool's biggest blob
+// within the transaction script limit.
+func (g *cnrGen) fit(op cnrOp) cnrOp {
+	if len(op.Blob) >= g.c.maxBlob-100 && op.Kind != "setEACL" {
+		if len(op.Sig) > 64 {
+			op.Sig = cnrSigA
+		}
+		if len(op.Tok) > 5 {
+			op.Tok = cnrTok
+		}
+		if len(op.Name) > 8 {
+			op.Name = "aaa"
+		}
+	}
+	return op
 }
 
 func (g *cnrGen) genPut() cnrOp {
@@ -1466,16 +1581,18 @@ func (g *cnrGen) genPut() cnrOp {
 		d := []int64{-1, 0, 0, 0, 1, 5}[r.Intn(6)]
 		diff.Add(diff, big.NewInt(d))
 		if diff.Sign() > 0 && diff.BitLen() < 200 {
+			op = g.fit(op)
 			g.pending = &op
 			return cnrOp{Kind: "mint", To: g.c.ownerSH[oi], Amount: diff, Data: []byte{byte(r.Intn(200))}, Signers: []int{-1}}
 		}
 		if diff.Sign() < 0 && diff.BitLen() < 200 && r.Intn(3) == 0 {
 			// move the surplus away so that the balance sits at the threshold
+			op = g.fit(op)
 			g.pending = &op
 			return cnrOp{Kind: "transfer", From: g.c.ownerSH[oi], To: g.c.ownerSH[(oi+1)%cnrNOwners], Amount: diff.Neg(diff), Signers: []int{oi}}
 		}
 	}
-	return op
+	return g.fit(op)
 }
 
 func (g *cnrGen) pickCid() []byte {
@@ -1553,7 +1670,13 @@ func (g *cnrGen) next(step int) cnrOp {
 				e = cnrCut(e, 2+int(e[1])+4+32) // minimal valid
 			}
 		}
+		if len(cid) == 32 && r.Intn(4) == 0 {
+			e = cnrPad(e, []int{252, 253, 256, 300, 4096, 65000}[r.Intn(6)]) // eACL tables across the length-prefix boundaries
+		}
 		op = cnrOp{Kind: "setEACL", Blob: e, Sig: g.sig(), Pub: g.pub(), Tok: g.tok(), Signers: g.alphaSigners()}
+		if len(e) > 60000 {
+			op.Sig, op.Tok = cnrSigA, cnrTok
+		}
 	case 3:
 		am := []*big.Int{big.NewInt(1), big.NewInt(6), big.NewInt(50), big.NewInt(1_000_000_000), big.NewInt(7_000_000_007)}[r.Intn(5)]
 		op = cnrOp{Kind: "mint", To: c.ownerSH[r.Intn(len(c.owners))], Amount: am, Data: []byte{byte(step)}, Signers: g.alphaSigners()}
@@ -1673,8 +1796,31 @@ func cnrCorpus(c *cnrEnv) [][]cnrOp {
 		L := c.alphaOwners[1]
 		selfPay = append(selfPay, mint(L, 1_000_000_000*N), put(bA+1, cnrTok), put(bA+1, cnrTok))
 	}
+	// blob / eACL / token / signature lengths across every encoding boundary on
+	// the path, each put, read back, given an eACL and deleted again
+	var sizes []cnrOp
+	sizes = append(sizes, fee("ContainerFee", 0), fee("ContainerAliasFee", 0))
+	for k := c.firstSized; k < len(B); k++ {
+		sizes = append(sizes, put(k, cnrTok))
+	}
+	big := cnrBlobN(0, c.ownerIDs[2], 0x3e, c.maxBlob) // the largest blob a transaction can carry
+	sizes = append(sizes, cnrOp{Kind: "put", Blob: big, Sig: cnrSigA, Pub: P[0], Tok: cnrTok, Signers: al})
+	sizes = append(sizes,
+		cnrOp{Kind: "setEACL", Blob: cnrPad(cnrEACL(0, c.cids[c.firstSized+1], 1), 252), Sig: cnrSigA, Pub: P[1], Tok: cnrTok, Signers: al},
+		cnrOp{Kind: "setEACL", Blob: cnrPad(cnrEACL(3, c.cids[c.firstSized+1], 1), 253), Sig: cnrPad(cnrSigB, 253), Pub: P[1], Tok: cnrPad(cnrTok, 253), Signers: al},
+		cnrOp{Kind: "setEACL", Blob: cnrPad(cnrEACL(0, c.cids[c.firstSized+5], 2), 65000), Sig: cnrSigA, Pub: P[1], Tok: cnrTok, Signers: al},
+		cnrOp{Kind: "put", Blob: B[c.firstSized+2], Sig: cnrPad(cnrSigA, 300), Pub: P[0], Tok: cnrPad(cnrTok, 1000), Signers: al}, // re-put with long sig/token
+		named(c.firstSized+1, strings.Repeat("w", 63), "", al), // a 253-byte blob under a 63-byte label
+		named(c.firstSized+6, strings.Repeat("q", 64), "", al)) // 64-byte label: refused by NNS
+	for k := c.firstSized; k < len(B); k++ {
+		sizes = append(sizes, del(k))
+	}
+	bh := sha256.Sum256(big)
+	sizes = append(sizes, cnrOp{Kind: "delete", Cid: bh[:], Sig: cnrSigB, Tok: cnrTok, Signers: al},
+		put(c.firstSized+1, cnrTok)) // replay of a deleted 253-byte container
 	return [][]cnrOp{
 		selfPay,
+		sizes,
 		{ // F13: a second alias for a live container; delete removes only the last one
 			fee("ContainerFee", 7), fee("ContainerAliasFee", 1), mint(0, 1000), mint(1, 1000),
 			put(0, cnrTok),
@@ -1789,10 +1935,10 @@ func cnrOpString(op cnrOp) string {
 func runContainerFamily(t *testing.T, prop string) {
 	st := NewStats(prop)
 	if prop == "C04" {
-		st.Rule = "histories = 5 corpus witnesses (+2 on a four-key committee in the quick tier) + seeded structured generation over 3 owners + the Alphabet nodes' own accounts as owners, 6+ container blobs (version-field lengths 0,2,5), 3 names x 2 zones, malformed blobs/ids/names, missing witnesses; " +
+		st.Rule = "histories = 6 corpus witnesses (+2 on a four-key committee in the quick tier) + seeded structured generation over 3 owners + the Alphabet nodes' own accounts as owners, 6+ short container blobs (version-field lengths 0,2,5) and blobs of 252, 253, 254, 255, 256, 300, 1024, 4096 bytes and the largest size a transaction carries, eACL tables / tokens / signatures / name labels at their length boundaries, 3 names x 2 zones, malformed blobs/ids/names, missing witnesses; " +
 			"non-trivial = the history contains a successful put, a successful delete and a refused/faulting call; distinct = by the sequence of (operation kind, outcome) pairs"
 	} else {
-		st.Rule = "histories = 5 corpus witnesses (+2 on a four-key committee in the quick tier) + seeded structured generation (fees from {0,1,7,10^9,-1,2^254}, balances steered to fee*N-1, fee*N, fee*N+1, owners that are themselves fee recipients, named and unnamed puts, fee changes between puts); " +
+		st.Rule = "histories = 6 corpus witnesses (+2 on a four-key committee in the quick tier) + seeded structured generation (fees from {0,1,7,10^9,-1,2^254}, balances steered to fee*N-1, fee*N, fee*N+1, owners that are themselves fee recipients, named and unnamed puts, fee changes between puts); " +
 			"non-trivial = the history contains a successful paying put (fee*N > 0) and a put refused or faulting; distinct = by the sequence of (operation kind, outcome, fee*N) triples"
 	}
 	q := newCnrCoq()
@@ -1929,7 +2075,7 @@ func runContainerFamily(t *testing.T, prop string) {
 		}
 		if extra > 0 { // quick tier: owner = Alphabet node and the F13 witness on a multi-key committee
 			corpusRun(0, 4)
-			corpusRun(1, 4)
+			corpusRun(2, 4)
 		}
 	}
 	for h := 0; h < nh; h++ {
@@ -1955,29 +2101,3 @@ func runContainerFamily(t *testing.T, prop string) {
 
 func TestC04(t *testing.T) { runContainerFamily(t, "C04") }
 func TestC05(t *testing.T) { runContainerFamily(t, "C05") }
-
-func TestCnrSizeProbe(t *testing.T) {
-	if os.Getenv("VERIF_PROBE") == "" {
-		t.Skip()
-	}
-	c := newCnrEnv(t, 1)
-	al := []int{-1}
-	c.exec(cnrOp{Kind: "setConfig", Key: "ContainerFee", Amount: big.NewInt(0), Signers: al})
-	mk := func(L int, salt byte) []byte {
-		b := make([]byte, L)
-		for i := range b {
-			b[i] = 0x41
-		}
-		b[0], b[1] = 0x0a, 0
-		copy(b[6:], c.ownerIDs[0])
-		b[L-1] = salt
-		return b
-	}
-	tx := c.E.NewUnsignedTx(t, c.container, "put", mk(60000, 1), cnrSigA, c.pubs[0], cnrTok)
-	base := len(tx.Script) - 60000
-	t.Logf("script overhead %d -> max blob by script limit %d", base, 65535-base)
-	for i, L := range []int{252, 253, 65535 - base, 65535 - base + 1, 65421, 65422, 65500} {
-		o := c.exec(cnrOp{Kind: "put", Blob: mk(L, byte(i+1)), Sig: cnrSigA, Pub: c.pubs[0], Tok: cnrTok, Signers: al})
-		t.Logf("L=%d halt=%v fault=%q count=%d", L, o.halt, o.fault, o.count)
-	}
-}
